@@ -131,6 +131,7 @@ func scenarioFiles(cases []*e1Case, harnessExtra string) map[string]string {
 	files["go.mod"] = "module example.com/v\n\ngo 1.24\n\nrequire verifrt v0.0.0\n\nreplace verifrt => " + filepath.Join(verifDir, "rt") + "\n"
 	files["ext/ext.go"] = extSrc
 	files["ext2/ext/ext.go"] = ext2Src
+	files["geo/v2/geo.go"] = geoSrc
 	decls := map[string]string{}
 	var sb strings.Builder
 	for _, c := range cases {
@@ -225,8 +226,8 @@ func main() {
 // importsFor renders the import block a scenario file body needs.
 func importsFor(body string) string {
 	var sb strings.Builder
-	e1, e2 := strings.Contains(body, "ext."), strings.Contains(body, "ext2.")
-	if !e1 && !e2 {
+	e1, e2, e3 := strings.Contains(body, "ext."), strings.Contains(body, "ext2."), strings.Contains(body, "geo.")
+	if !e1 && !e2 && !e3 {
 		return ""
 	}
 	sb.WriteString("import (\n")
@@ -235,6 +236,9 @@ func importsFor(body string) string {
 	}
 	if e2 {
 		sb.WriteString("\text2 \"example.com/v/ext2/ext\"\n")
+	}
+	if e3 {
+		sb.WriteString("\t\"example.com/v/geo/v2\"\n")
 	}
 	sb.WriteString(")\n\n")
 	return sb.String()
